@@ -145,6 +145,7 @@ func wireCmd(args []string) {
 		defer conn.Close()
 		client = proto.NewQueryServiceClient(conn)
 	}
+	hangs := 0 // in-process requests that were never answered
 	downs := 0 // consecutive requests without an answer; after 3 the server is taken for dead
 	for i := 0; i < len(lines); i++ {
 		t := newToks(lines[i])
@@ -165,7 +166,21 @@ func wireCmd(args []string) {
 				req.Queries = append(req.Queries, qt.wquery())
 			}
 			if ix != nil {
-				pr("REQ %s %s\n", rid, serveInProcess(ix, req))
+				// in-process: a request that is not answered within 10 s counts as a hang (its
+				// goroutine is abandoned); after three of them the rest is not attempted
+				if hangs >= 3 {
+					pr("REQ %s HANG (not attempted: three earlier requests were never answered)\n", rid)
+					continue
+				}
+				ch := make(chan string, 1)
+				go func() { ch <- serveInProcess(ix, req) }()
+				select {
+				case r := <-ch:
+					pr("REQ %s %s\n", rid, r)
+				case <-time.After(10 * time.Second):
+					hangs++
+					pr("REQ %s HANG\n", rid)
+				}
 				continue
 			}
 			if downs >= 3 {
